@@ -60,15 +60,25 @@ def shape_desc(s):
 
 
 class Iso:
-    def __init__(self, with_device=True, model_cfgs=()):
+    def __init__(self, with_device=True, model_cfgs=(), describe_undefined=()):
         self.sites = {}
         self.with_device = with_device
         self.model_cfgs = tuple(model_cfgs)
+        # An initializer entry without a tensor cannot be written as an initializer (documented: it is skipped with a
+        # warning, its value_info is kept).  On the wire it is an undefined name with a description; both sides of a round
+        # trip are rendered like that: `pending` collects (name, description) of such entries, `describe_undefined` names
+        # the undefined values whose description has to be collected on the other side.
+        self.pending = {}
+        self.describe_undefined = set(describe_undefined)
 
     def register_graph(self, g, path):
         for i, v in enumerate(g.inputs):
             self.sites.setdefault(id(v), ("in", path, i))
         for k, v in g.initializers.items():
+            if v.const_value is None and not any(v is x for x in g.inputs):
+                if any(u.graph is not None for u, _ in v.uses()):  # (a description naming nothing is dropped on the wire)
+                    self.pending[k] = self.value_desc(v)
+                continue
             self.sites.setdefault(id(v), ("init", path, k))
         for ni, n in enumerate(g):
             for oi, o in enumerate(n.outputs):
@@ -79,6 +89,8 @@ class Iso:
             return None
         s = self.sites.get(id(v))
         if s is None:
+            if v.name in self.describe_undefined and v.producer() is None:
+                self.pending[v.name] = self.value_desc(v)
             return ("undefined", v.name)
         return s
 
@@ -158,15 +170,16 @@ class Iso:
         return (
             "G", _none_if_empty(g.name), _none_if_empty(g.doc_string), _md(g.metadata_props),
             tuple(self.value_desc(v, is_initializer=v.name in init_names and g.initializers.get(v.name) is v) for v in g.inputs),
-            tuple((k, self.value_desc(v, True), tensor_desc(v.const_value)) for k, v in g.initializers.items()),
+            tuple((k, self.value_desc(v, True), tensor_desc(v.const_value)) for k, v in g.initializers.items()
+                  if not (v.const_value is None and not any(v is x for x in g.inputs))),
             tuple(self.node_desc(n, path, ni) for ni, n in enumerate(g)),
             tuple((self.ref(v), self.value_desc(v, v.is_initializer())) for v in g.outputs),
         )
 
 
-def model_iso(model):
+def model_iso(model, describe_undefined=()):
     mc = tuple(getattr(model, "device_configurations", ()) or ())
-    I = Iso(with_device=model.ir_version >= 11, model_cfgs=mc)
+    I = Iso(with_device=model.ir_version >= 11, model_cfgs=mc, describe_undefined=describe_undefined)
     fns = []
     for fid, f in model.functions.items():
         I2 = Iso(with_device=model.ir_version >= 11, model_cfgs=mc)
@@ -184,8 +197,13 @@ def model_iso(model):
     return (
         "M", model.ir_version, _none_if_empty(model.producer_name), _none_if_empty(model.producer_version), _none_if_empty(model.domain),
         model.model_version or None, _none_if_empty(model.doc_string), _md(model.metadata_props), _md(model.opset_imports),
-        I.graph_desc(model.graph, ("g",)), tuple(fns), cfgs,
+        I.graph_desc(model.graph, ("g",)), tuple(fns), cfgs, tuple(sorted(I.pending.items(), key=lambda kv: str(kv[0]))),
     )
+
+
+def pending_names(desc):
+    """Names of the data-less initializer entries recorded in a model description."""
+    return [k for k, _ in desc[-1]]
 
 
 def _strip_value_info(nd):
@@ -196,7 +214,7 @@ def _strip_value_info(nd):
 
 FIELDS = {
     "M": ["tag", "ir_version", "producer_name", "producer_version", "domain", "model_version", "doc_string", "metadata_props",
-          "opset_imports", "graph", "functions", "device_configurations"],
+          "opset_imports", "graph", "functions", "device_configurations", "initializers_without_data"],
     "G": ["tag", "name", "doc_string", "metadata_props", "inputs", "initializers", "nodes", "outputs"],
     "N": ["tag", "name", "domain", "op_type", "overload", "doc_string", "metadata_props", "attributes", "inputs", "outputs", "device_configurations"],
     "V": ["tag", "name", "type", "shape", "doc_string", "metadata_props", "quantization"],
